@@ -72,6 +72,20 @@ pub enum Kind {
         len: u32,
         relay: Option<u32>,
     },
+    /// two concurrent writers on one pipe (one open file description), each
+    /// with a payload beyond the pipe capacity written in chunks of any size:
+    /// both payloads arrive completely and each in its own order
+    TwoBigWriters {
+        n_a: u32,
+        s_a: u64,
+        chunk_a: u32,
+        n_b: u32,
+        s_b: u64,
+        chunk_b: u32,
+        buf: u32,
+        /// 0 pipeline, 1 command substitution
+        form: u8,
+    },
     /// two concurrent readers on one pipe: every byte reaches exactly one of
     /// them (the lengths, byte sums and sums of squares add up)
     TwoReaders {
@@ -249,6 +263,19 @@ pub fn generate(rng: &mut Rng, tier: Tier) -> Case {
             buf_a: *rng.pick(&bufs()),
             buf_b: *rng.pick(&bufs()),
         },
+        86 if rng.bool() => {
+            let big = |rng: &mut Rng| PIPE_SIZE as u32 / 2 + rng.below(3 * PIPE_SIZE as u32);
+            Kind::TwoBigWriters {
+                n_a: big(rng),
+                s_a: rng.next_u64() % 1000,
+                chunk_a: *rng.pick(&bufs()),
+                n_b: big(rng),
+                s_b: rng.next_u64() % 1000,
+                chunk_b: *rng.pick(&bufs()),
+                buf: *rng.pick(&bufs()),
+                form: rng.below(2) as u8,
+            }
+        }
         86..=87 => Kind::TwoWriters {
             count_a: rng.range(1, 40),
             count_b: rng.range(1, 40),
@@ -525,6 +552,15 @@ fn render_body(c: &Case) -> (String, Option<String>) {
                     (count_a + count_b) * len
                 )),
             )
+        }
+        Kind::TwoBigWriters { n_a, s_a, chunk_a, n_b, s_b, chunk_b, buf, form } => {
+            let want = format!("A len={n_a} bad=-1 B len={n_b} bad=-1\n?=0\n");
+            let writers = format!("gen {n_a} {s_a} {chunk_a} 6 0 & gen {n_b} {s_b} {chunk_b} 7 0");
+            if *form == 0 {
+                (format!("{{ {writers}; wait; }} | demux {s_a} {s_b} {buf}\necho \"?=$?\"\n"), Some(want))
+            } else {
+                (format!("x=$({writers}; wait)\nprintn \"$x\" | demux {s_a} {s_b} {buf}\necho \"?=$?\"\n"), Some(want))
+            }
         }
         Kind::TwoReaders { n, s, chunk, buf_a, buf_b } => (
             // (an asynchronous list reads /dev/null unless told otherwise:
@@ -896,6 +932,7 @@ impl Prop for C14 {
                     Kind::ReadSlow { .. } => "kind:read-slow-producer",
                     Kind::EarlyExit { .. } => "kind:early-exit-reader",
                     Kind::TwoWriters { .. } => "kind:two-writers-atomicity",
+                    Kind::TwoBigWriters { .. } => "kind:two-big-writers",
                     Kind::TwoReaders { .. } => "kind:two-readers-partition",
                     Kind::Wakers { .. } => "kind:waker-history",
                     Kind::Pipes { .. } => "kind:pipe-history",
@@ -1050,6 +1087,14 @@ impl Prop for C14 {
                 }
                 if *count_b > 1 {
                     push(Kind::TwoWriters { count_a: *count_a, count_b: count_b / 2, len: *len, relay: *relay });
+                }
+            }
+            Kind::TwoBigWriters { n_a, s_a, chunk_a, n_b, s_b, chunk_b, buf, form } => {
+                for m in smaller(*n_a) {
+                    push(Kind::TwoBigWriters { n_a: m, s_a: *s_a, chunk_a: *chunk_a, n_b: *n_b, s_b: *s_b, chunk_b: *chunk_b, buf: *buf, form: *form });
+                }
+                for m in smaller(*n_b) {
+                    push(Kind::TwoBigWriters { n_a: *n_a, s_a: *s_a, chunk_a: *chunk_a, n_b: m, s_b: *s_b, chunk_b: *chunk_b, buf: *buf, form: *form });
                 }
             }
             Kind::TwoReaders { n, s, chunk, buf_a, buf_b } => {
